@@ -63,6 +63,10 @@ type optSet struct {
 	timeout     *time.Duration
 	grpcConn    *grpc.ClientConn // gRPC exporters: WithGRPCConn
 	proxy       bool             // HTTP exporters: WithProxy(no proxy)
+	// gRPC exporters: further connection options (twins_test.go)
+	serviceConfig *string        // WithServiceConfig
+	reconnect     *time.Duration // WithReconnectionPeriod
+	dialOption    *string        // WithDialOption(grpc.WithUserAgent(text))
 }
 
 func directProxy(*http.Request) (*url.URL, error) { return nil, nil }
@@ -77,25 +81,7 @@ func build(exp string, o optSet) (*client, error) {
 	ctx := context.Background()
 	switch exp {
 	case "otlptracegrpc":
-		opts := []otlptracegrpc.Option{otlptracegrpc.WithInsecure(), otlptracegrpc.WithRetry(otlptracegrpc.RetryConfig{Enabled: false})}
-		if o.endpoint != nil {
-			opts = append(opts, otlptracegrpc.WithEndpoint(*o.endpoint))
-		}
-		if o.endpointURL != nil {
-			opts = append(opts, otlptracegrpc.WithEndpointURL(*o.endpointURL))
-		}
-		if o.hasHeaders {
-			opts = append(opts, otlptracegrpc.WithHeaders(o.headers))
-		}
-		if o.compressor != nil {
-			opts = append(opts, otlptracegrpc.WithCompressor(*o.compressor))
-		}
-		if o.timeout != nil {
-			opts = append(opts, otlptracegrpc.WithTimeout(*o.timeout))
-		}
-		if o.grpcConn != nil {
-			opts = append(opts, otlptracegrpc.WithGRPCConn(o.grpcConn))
-		}
+		opts := traceGRPCOptions(o)
 		e, err := otlptracegrpc.New(ctx, opts...)
 		if err != nil {
 			return nil, err
@@ -107,28 +93,7 @@ func build(exp string, o optSet) (*client, error) {
 			shutdown: e.Shutdown,
 		}, nil
 	case "otlptracehttp":
-		opts := []otlptracehttp.Option{otlptracehttp.WithInsecure(), otlptracehttp.WithRetry(otlptracehttp.RetryConfig{Enabled: false})}
-		if o.endpoint != nil {
-			opts = append(opts, otlptracehttp.WithEndpoint(*o.endpoint))
-		}
-		if o.endpointURL != nil {
-			opts = append(opts, otlptracehttp.WithEndpointURL(*o.endpointURL))
-		}
-		if o.urlPath != nil {
-			opts = append(opts, otlptracehttp.WithURLPath(*o.urlPath))
-		}
-		if o.hasHeaders {
-			opts = append(opts, otlptracehttp.WithHeaders(o.headers))
-		}
-		if o.compression != nil {
-			opts = append(opts, otlptracehttp.WithCompression(otlptracehttp.Compression(*o.compression)))
-		}
-		if o.timeout != nil {
-			opts = append(opts, otlptracehttp.WithTimeout(*o.timeout))
-		}
-		if o.proxy {
-			opts = append(opts, otlptracehttp.WithProxy(directProxy))
-		}
+		opts := traceHTTPOptions(o)
 		e, err := otlptracehttp.New(ctx, opts...)
 		if err != nil {
 			return nil, err
@@ -158,6 +123,15 @@ func build(exp string, o optSet) (*client, error) {
 		}
 		if o.grpcConn != nil {
 			opts = append(opts, otlpmetricgrpc.WithGRPCConn(o.grpcConn))
+		}
+		if o.serviceConfig != nil {
+			opts = append(opts, otlpmetricgrpc.WithServiceConfig(*o.serviceConfig))
+		}
+		if o.reconnect != nil {
+			opts = append(opts, otlpmetricgrpc.WithReconnectionPeriod(*o.reconnect))
+		}
+		if o.dialOption != nil {
+			opts = append(opts, otlpmetricgrpc.WithDialOption(grpc.WithUserAgent(*o.dialOption)))
 		}
 		e, err := otlpmetricgrpc.New(ctx, opts...)
 		if err != nil {
@@ -218,6 +192,15 @@ func build(exp string, o optSet) (*client, error) {
 		if o.grpcConn != nil {
 			opts = append(opts, otlploggrpc.WithGRPCConn(o.grpcConn))
 		}
+		if o.serviceConfig != nil {
+			opts = append(opts, otlploggrpc.WithServiceConfig(*o.serviceConfig))
+		}
+		if o.reconnect != nil {
+			opts = append(opts, otlploggrpc.WithReconnectionPeriod(*o.reconnect))
+		}
+		if o.dialOption != nil {
+			opts = append(opts, otlploggrpc.WithDialOption(grpc.WithUserAgent(*o.dialOption)))
+		}
 		e, err := otlploggrpc.New(ctx, opts...)
 		if err != nil {
 			return nil, err
@@ -259,6 +242,64 @@ func build(exp string, o optSet) (*client, error) {
 		}, nil
 	}
 	panic("harness bug: unknown exporter " + exp)
+}
+
+func traceGRPCOptions(o optSet) []otlptracegrpc.Option {
+	opts := []otlptracegrpc.Option{otlptracegrpc.WithInsecure(), otlptracegrpc.WithRetry(otlptracegrpc.RetryConfig{Enabled: false})}
+	if o.endpoint != nil {
+		opts = append(opts, otlptracegrpc.WithEndpoint(*o.endpoint))
+	}
+	if o.endpointURL != nil {
+		opts = append(opts, otlptracegrpc.WithEndpointURL(*o.endpointURL))
+	}
+	if o.hasHeaders {
+		opts = append(opts, otlptracegrpc.WithHeaders(o.headers))
+	}
+	if o.compressor != nil {
+		opts = append(opts, otlptracegrpc.WithCompressor(*o.compressor))
+	}
+	if o.timeout != nil {
+		opts = append(opts, otlptracegrpc.WithTimeout(*o.timeout))
+	}
+	if o.grpcConn != nil {
+		opts = append(opts, otlptracegrpc.WithGRPCConn(o.grpcConn))
+	}
+	if o.serviceConfig != nil {
+		opts = append(opts, otlptracegrpc.WithServiceConfig(*o.serviceConfig))
+	}
+	if o.reconnect != nil {
+		opts = append(opts, otlptracegrpc.WithReconnectionPeriod(*o.reconnect))
+	}
+	if o.dialOption != nil {
+		opts = append(opts, otlptracegrpc.WithDialOption(grpc.WithUserAgent(*o.dialOption)))
+	}
+	return opts
+}
+
+func traceHTTPOptions(o optSet) []otlptracehttp.Option {
+	opts := []otlptracehttp.Option{otlptracehttp.WithInsecure(), otlptracehttp.WithRetry(otlptracehttp.RetryConfig{Enabled: false})}
+	if o.endpoint != nil {
+		opts = append(opts, otlptracehttp.WithEndpoint(*o.endpoint))
+	}
+	if o.endpointURL != nil {
+		opts = append(opts, otlptracehttp.WithEndpointURL(*o.endpointURL))
+	}
+	if o.urlPath != nil {
+		opts = append(opts, otlptracehttp.WithURLPath(*o.urlPath))
+	}
+	if o.hasHeaders {
+		opts = append(opts, otlptracehttp.WithHeaders(o.headers))
+	}
+	if o.compression != nil {
+		opts = append(opts, otlptracehttp.WithCompression(otlptracehttp.Compression(*o.compression)))
+	}
+	if o.timeout != nil {
+		opts = append(opts, otlptracehttp.WithTimeout(*o.timeout))
+	}
+	if o.proxy {
+		opts = append(opts, otlptracehttp.WithProxy(directProxy))
+	}
+	return opts
 }
 
 func oneMetric(mark string) *metricdata.ResourceMetrics {
